@@ -28,7 +28,7 @@ import DefconModel.Spec.SettersWinding
 import DefconModel.Spec.Geom
 import DefconModel.OrderNotify
 import DefconModel.Drivers.Follow
-import DefconModel.Drivers.GlyphOrder
+import DefconModel.Drivers.GlyphOrderV1
 import DefconModel.Drivers.Geom
 
 namespace DefconModel
@@ -97,7 +97,7 @@ def encOptNames (v : Option (List String)) : SExp := ofOpt (ofList .str) v
 
 def orderLine : SExp → SExp
   | .list [.atom "order", op, lib, .list ls] =>
-    match GlyphOrder.parseOp op, GlyphOrder.optStrList? lib, ls.mapM GlyphOrder.parseLayer with
+    match GlyphOrderV1.parseOp op, GlyphOrderV1.optStrList? lib, ls.mapM GlyphOrderV1.parseLayer with
     | some op, some v, some layers =>
       let r := OrderNotify.stepN { layers := layers, lib := v } op
       .list [.list (r.2.map (fun ev => .list [encOptNames ev.old, encOptNames ev.new, encOptNames ev.snap])),
